@@ -118,8 +118,10 @@ def case_glycan(inp):
     if not close(norm(comp), norm(exp), 1e-6):
         return False, ('glycan composition is the count-weighted sum over its monosaccharides', norm(exp)), (s, norm(comp)), None
     lin = sum(cnt * pt.glycan_mass({name: 1}) for name, cnt in g.items())
-    if abs(pt.glycan_mass(dict(g)) - lin) > 1e-6 or abs(pt.glycan_mass(s) - lin) > 1e-6 or abs(lin - pt.chem_mass(exp)) > 1e-3 * sum(abs(v) for v in g.values()):
-        return False, ('glycan mass is the count-weighted sum', lin, pt.chem_mass(exp)), (pt.glycan_mass(dict(g)), pt.glycan_mass(s)), None
+    # (the written string is re-read only when its written form is unambiguous: 'Neu' 5 'Acetyl' 20 also reads 'Neu5Ac' + ...)
+    ms = pt.glycan_mass(s) if inp.get('unambiguous', True) else lin
+    if abs(pt.glycan_mass(dict(g)) - lin) > 1e-6 or abs(ms - lin) > 1e-6 or abs(lin - pt.chem_mass(exp)) > 1e-3 * sum(abs(v) for v in g.values()):
+        return False, ('glycan mass is the count-weighted sum', lin, pt.chem_mass(exp)), (pt.glycan_mass(dict(g)), ms), None
     if inp.get('unambiguous', True):
         back = pt.parse_glycan_formula(s)
         if not close(norm(back), norm(g)):
